@@ -76,6 +76,8 @@ impl CaoLangAllocator {
         let s = l.size() + l.align();
         let allocated = s + self.allocated.fetch_add(s, Ordering::Relaxed);
         if allocated > self.limit.load(Ordering::Relaxed) {
+            // the request is not granted, so it is not charged either
+            self.allocated.fetch_sub(s, Ordering::Relaxed);
             #[cfg(feature = "verif-hooks")]
             self.verif.end_alloc(self, verif_idx, l, 0, false);
             return Err(AllocError::OutOfMemory);
